@@ -131,7 +131,7 @@ struct World {
     }
     static void track(Async::Promise<ssize_t> p, SendRec* rec)
     {
-        p.then([rec](ssize_t n) { sim::IgnoreScope ig; rec->fulfilled++; rec->value = static_cast<long>(n); },
+        p.then([rec](ssize_t n) { sim::IgnoreScope ig; rec->fulfilled++; rec->value = static_cast<long>(n); sim::logf("send promise of %s fulfilled with %ld", rec->what.c_str(), static_cast<long>(n)); },
                [rec](std::exception_ptr e) {
                    std::string what = "?";
                    try {
@@ -143,6 +143,7 @@ struct World {
                    sim::IgnoreScope ig;
                    rec->rejected++;
                    rec->error = what;
+                   sim::logf("send promise of %s rejected: %s", rec->what.c_str(), what.c_str());
                });
     }
 
@@ -339,6 +340,8 @@ inline void World::stop()
     if (app.joinable()) app.join();
     ep->shutdown();
     {
+        // letting go of kept writers on this thread is the harness's choice (see scen_c08.cc)
+        sim::IgnoreScope ig;
         std::lock_guard<std::mutex> g(held_mtx);
         held.clear();
     }
